@@ -17,7 +17,80 @@ import (
 	"sort"
 	"strconv"
 	"strings"
+
+	"golang.org/x/net/html/atom"
 )
+
+// atomString gives the string of the x/net/html/atom constant named id (as linked into this generator, which is
+// the version /repo's go.sum pins). The atom package derives a constant's name from its string by upper-casing
+// the first letter (and dropping hyphens), so for a name whose lower-casing is an atom string with the same
+// derived identifier the answer is exact; anything else is refused rather than guessed.
+func atomString(id string) (string, error) {
+	lower := strings.ToLower(id)
+	a := atom.Lookup([]byte(lower))
+	if a == 0 || a.String() != lower || id != strings.ToUpper(lower[:1])+lower[1:] {
+		return "", fmt.Errorf("cannot resolve atom.%s", id)
+	}
+	return lower, nil
+}
+
+// atomSel recognises the expression atom.X and returns X.
+func atomSel(e ast.Expr) (string, bool) {
+	se, ok := e.(*ast.SelectorExpr)
+	if !ok {
+		return "", false
+	}
+	pk, ok := se.X.(*ast.Ident)
+	if !ok || pk.Name != "atom" || se.Sel.Name == "Atom" || se.Sel.Name == "Lookup" || se.Sel.Name == "String" {
+		return "", false
+	}
+	return se.Sel.Name, true
+}
+
+// translateAtoms lists, per function, the atom.X constants its body mentions (source order, duplicates dropped):
+// the tag vocabulary of the renderer's pre/post functions and the list of FilterTagGFM.
+func translateAtoms(files map[string]*ast.File) ([]decl, error) {
+	var out []decl
+	names := make([]string, 0, len(files))
+	for n := range files {
+		names = append(names, n)
+	}
+	sort.Strings(names)
+	for _, n := range names {
+		for _, d := range files[n].Decls {
+			fd, ok := d.(*ast.FuncDecl)
+			if !ok || fd.Body == nil {
+				continue
+			}
+			var items []string
+			seen := map[string]bool{}
+			var ferr error
+			ast.Inspect(fd.Body, func(nd ast.Node) bool {
+				e, ok := nd.(ast.Expr)
+				if !ok {
+					return true
+				}
+				if id, ok := atomSel(e); ok && !seen[id] {
+					seen[id] = true
+					s, err := atomString(id)
+					if err != nil {
+						ferr = err
+						return false
+					}
+					items = append(items, zbytes(s))
+				}
+				return true
+			})
+			if ferr != nil {
+				return nil, fmt.Errorf("%s: %v", fd.Name.Name, ferr)
+			}
+			if len(items) > 0 {
+				out = append(out, decl{"a_" + fd.Name.Name, fmt.Sprintf("Definition a_%s : list (list Z) := [%s].", fd.Name.Name, strings.Join(items, "; "))})
+			}
+		}
+	}
+	return out, nil
+}
 
 type constEnv map[string]constant.Value
 
@@ -57,6 +130,16 @@ func evalConst(e ast.Expr, env constEnv, iota int64) (constant.Value, error) {
 		}
 		return constant.BinaryOp(a, x.Op, b), nil
 	case *ast.CallExpr:
+		// atom.X.String()
+		if se, ok := x.Fun.(*ast.SelectorExpr); ok && len(x.Args) == 0 && se.Sel.Name == "String" {
+			if id, ok := atomSel(se.X); ok {
+				s, err := atomString(id)
+				if err != nil {
+					return nil, err
+				}
+				return constant.MakeString(s), nil
+			}
+		}
 		// conversions such as BlockKind(1), int8(3)
 		if len(x.Args) == 1 {
 			return evalConst(x.Args[0], env, iota)
@@ -467,6 +550,14 @@ func writeGen(repo, outdir string) error {
 	var sb strings.Builder
 	sb.WriteString("From Coq Require Import ZArith List. Import ListNotations. Open Scope Z_scope.\n(* GENERATED from /repo's source by go/gen: every constant declaration and package-level string table *)\n")
 	for _, d := range cs {
+		sb.WriteString(d.body + "\n")
+	}
+	as, err := translateAtoms(files)
+	if err != nil {
+		return err
+	}
+	sb.WriteString("(* per function: the x/net/html/atom constants its body mentions, as strings *)\n")
+	for _, d := range as {
 		sb.WriteString(d.body + "\n")
 	}
 	if err := os.WriteFile(filepath.Join(outdir, "GenConsts.v"), []byte(sb.String()), 0o644); err != nil {
